@@ -104,6 +104,16 @@ def real_workflow(mods, job):
     from formak.exceptions import ModelFitError
     idm = {v: k for k, v in _idmap(sm).items()}
     ev = []
+    selections = []
+
+    class RecordingGridSearch(sm.GridSearchCV):
+        """same search; remembers what it selected"""
+
+        def fit(self, *a, **kw):
+            r = super().fit(*a, **kw)
+            selections.append(dict(self.best_params_))
+            return r
+    sm.GridSearchCV = RecordingGridSearch
     dm = sm.DesignManager(name="verif")
     ev.append({"event": "Create", "history": [idm[h] for h in dm.history()]})
     for b in (1, 2, 3):
@@ -130,6 +140,8 @@ def real_workflow(mods, job):
     rng = np.random.default_rng(job["seed"])
     for n, grid in job["fits"]:
         data = np.round(rng.normal(size=(n, 1)), 3)
+        if job.get("outliers") and n >= 4:
+            data[1::3] *= 25.0
         space = {"process_noise": [{}], "sensor_models": [{"pos": {"p": x}}], "sensor_noises": [{"pos": {"p": 1.0}}], "calibration_map": [{}]}
         space.update({k: list(v) for k, v in grid.items()})
         e = {"event": "FitModel", "nsamples": n, "grid": {k: [str(v) for v in vs] for k, vs in grid.items()}, "defaults": dflt}
@@ -139,7 +151,10 @@ def real_workflow(mods, job):
             cfg = fs.fit_estimator.get_params()["config"]
             exp = fs.export_python().config
             e["outcome"] = "fitted"
-            e["selected"] = {k: str(getattr(cfg, k)) for k in grid}
+            # what the search selected (recorded from GridSearchCV itself), not what the returned estimator happens to carry
+            sel = selections[-1] if selections else {}
+            e["selected"] = {k: str(sel.get(k, getattr(cfg, k))) for k in grid}
+            e["estimator_config"] = {k: str(getattr(cfg, k)) for k in grid}
             e["exported"] = {k: str(getattr(exp, k)) for k in dflt}
             ev.append(e)
             ev.append({"event": "Move", "to": idm[fs.state_id()], "history": [idm[h] for h in fs.history()]})
@@ -197,13 +212,15 @@ def run(ctx):
     if quick:
         jobs.append({"seed": ctx.seed, "fits": [(0, {}), (2, {"innovation_filtering": [None, 4.0]}), (4, {"innovation_filtering": [None, 4.0]})]})
         jobs.append({"seed": ctx.seed + 1, "fits": [(1, {"max_dt_sec": [0.05]}), (3, {"max_dt_sec": [0.05, 0.2]})]})
+        jobs.append({"seed": ctx.seed + 2, "outliers": True, "fits": [(8, {"innovation_filtering": [2.0, None]})]})
+        jobs.append({"seed": ctx.seed + 3, "outliers": True, "fits": [(7, {"innovation_filtering": [1.0, None, 6.0]})]})
     else:
-        grids = [{"innovation_filtering": [None, 4.0, 7.0]}, {"max_dt_sec": [0.05, 0.2]}, {"common_subexpression_elimination": [True, False]},
+        grids = [{"innovation_filtering": [None, 4.0, 7.0]}, {"innovation_filtering": [2.0, None]}, {"innovation_filtering": [1.0, 5.0, None]}, {"max_dt_sec": [0.05, 0.2]}, {"common_subexpression_elimination": [True, False]},
                  {"innovation_filtering": [2.0, 6.0], "max_dt_sec": [0.1, 0.3]}, {"innovation_filtering": [None], "common_subexpression_elimination": [False]}]
         k = 0
         for n in (3, 4, 5, 6, 9):
             for g in grids:
-                jobs.append({"seed": ctx.seed + k, "fits": [(k % 3, g), (n, g)]})
+                jobs.append({"seed": ctx.seed + k, "fits": [(k % 3, g), (n, g)], "outliers": k % 2 == 1})
                 k += 1
     res = workers.run_tasks([("props.c18", "real_workflow", (j,), 1800) for j in jobs], procs=ctx.cores)
     traces = []
